@@ -3,7 +3,7 @@
    definitions that keep, for every target, the sequence of its extensions
    (and the sequence of schema extensions). *)
 From PyGql Require Import Schema.SdlBuild Spec.SdlSpec Proofs.SdlProofs Proofs.SdlExactProofs Proofs.SdlOrderProofs.
-From PyGql Require Import Proofs.SdlValidInvProofs.
+From PyGql Require Import Proofs.SdlValidPermProofs.
 From Coq Require Import Lia Sorting.Permutation.
 
 Lemma kinds_keys tds : map fst (kinds_of [] tds) = tnames tds.
@@ -186,10 +186,21 @@ Proof.
   { unfold r_one_schema in R3 |- *. fold ds ds' in R3 |- *.
     rewrite <- (Permutation_length (Permutation_filter _ _ _ Hp)). exact R3. }
   assert (E4 : r_ext_targets doc' = true).
-  { unfold r_ext_targets in R4 |- *. fold ds ds' in R4 |- *. cbv zeta in R4 |- *.
-    rewrite <- (forallb_perm _ _ _ Hp). rewrite <- R4. apply forallb_ext. intros x.
-    destruct (typeext_name x) as [n|]; [|reflexivity].
-    change (fun d => match typedef_name d with Some m => str_eqb m n | None => false end) with (named_typedef n).
+  { set (F := fun (l : list definition) (x : definition) =>
+                match typeext_name x with
+                | None => true
+                | Some n => match find (named_typedef n) l with
+                            | Some d => match def_kind d, def_kind x with
+                                        | Some a, Some b => kind_eqb a b
+                                        | _, _ => false
+                                        end
+                            | None => false
+                            end
+                end).
+    change (forallb (F ds) ds = true) in R4. change (forallb (F ds') ds' = true).
+    rewrite <- (forallb_perm (F ds') ds ds' Hp).
+    rewrite (forallb_ext (F ds') (F ds) ds); [exact R4|].
+    intros x. unfold F. destruct (typeext_name x) as [n|]; [|reflexivity].
     rewrite (find_named_perm n ds ds' Hp Hnd). reflexivity. }
   assert (E5 : r_unique_members doc' = true).
   { unfold r_unique_members in R5 |- *. rewrite <- (forallb_perm _ _ _ Hdd). exact R5. }
@@ -212,8 +223,8 @@ Proof.
     apply forallb_ext. intros ot. apply Hknown. }
   assert (E11 : r_default_roots doc' = true).
   { unfold r_default_roots in R11 |- *. fold ds ds' in R11 |- *. rewrite <- Hsd, <- Hops.
-    destruct (schema_def_of ds); [reflexivity|]. rewrite <- R11. apply forallb_ext. intros [k n].
-    unfold default_root. rewrite (find_type_perm _ _ n HT Htnd). reflexivity. }
+    destruct (schema_def_of ds); [reflexivity|]. cbn [forallb] in R11 |- *. unfold default_root in R11 |- *.
+    rewrite <- !(find_type_perm (s_types (declared doc)) (s_types (declared doc')) _ HT Htnd). exact R11. }
   assert (E12 : r_no_override doc' = true).
   { unfold r_no_override, overrides_specified_directive in R12 |- *.
     rewrite <- (existsb_perm _ _ _ HD). exact R12. }
@@ -223,4 +234,82 @@ Proof.
     - unfold declared; cbn [s_mutation]. apply (of_root doc doc' Hp Hx Hsx R1 R2 R3).
     - unfold declared; cbn [s_subscription]. apply (of_root doc doc' Hp Hx Hsx R1 R2 R3). }
   rewrite E1, E2, E3, E4, E5, E6, E7, E8, E9, E10, E11, E12, E13. reflexivity.
+Qed.
+
+(* ---- the guard --------------------------------------------------------- *)
+Lemma decl_type_names E tds :
+  Forall (fun d => is_typedef d = true) tds -> map tdef_name (flat_map (decl_type E) tds) = tnames tds.
+Proof.
+  induction 1 as [|d l Hd _ IH]; [reflexivity|]. unfold tnames in *. cbn [flat_map]. rewrite map_app, IH. f_equal.
+  unfold is_typedef in Hd. destruct d; try discriminate; destruct ext; try discriminate; reflexivity.
+Qed.
+
+Lemma NoDup_map_filter {A B} (f : A -> B) (p : A -> bool) l : NoDup (map f l) -> NoDup (map f (filter p l)).
+Proof.
+  induction l as [|x l IH]; intros H; [constructor|]. cbn [map] in H. apply NoDup_cons_iff in H. destruct H as [Hn H].
+  cbn [filter]. destruct (p x); [|apply IH; exact H]. cbn [map]. constructor; [|apply IH; exact H].
+  intros Hin. apply Hn. apply in_map_iff in Hin. destruct Hin as (y & <- & Hy). apply filter_In in Hy.
+  apply in_map. apply Hy.
+Qed.
+
+Lemma filter_typedefs_all ds : Forall (fun d => is_typedef d = true) (filter is_typedef ds).
+Proof. apply Forall_forall. intros x Hx. apply filter_In in Hx. apply Hx. Qed.
+
+Theorem stable_order doc doc' :
+  Permutation (doc_defs doc) (doc_defs doc') ->
+  (forall n, exts_for n (doc_defs doc) = exts_for n (doc_defs doc')) ->
+  r_unique_types doc = true ->
+  defaults_stable doc -> defaults_stable doc'.
+Proof.
+  intros Hp Hx R1 [Hb He].
+  set (ds := doc_defs doc) in *. set (ds' := doc_defs doc') in *.
+  pose proof (of_env doc doc' Hp Hx R1) as Henv.
+  pose proof (of_base_env doc doc' Hp R1) as Hbenv.
+  pose proof (of_typedefs doc doc' Hp) as Htd. fold ds ds' in Htd.
+  pose proof (of_nd doc R1) as Hnd. fold ds in Hnd.
+  assert (Hbuilt : forall n, alookup n (built_env doc) = alookup n (built_env doc')).
+  { apply alookup_perm.
+    - unfold built_env. apply Permutation_map. unfold decl_types. apply Permutation_filter. fold ds ds'.
+      rewrite (flat_map_ext_all (decl_type (declared_env doc')) (decl_type (declared_env doc)))
+        by (intros; symmetry; apply decl_type_ext; exact Henv).
+      apply Permutation_flat_map; exact Htd.
+    - unfold built_env. rewrite map_map. cbn [fst]. unfold decl_types. apply NoDup_map_filter. fold ds.
+      rewrite (decl_type_names _ _ (filter_typedefs_all ds)), tnames_filter. exact Hnd. }
+  split; intros iv Hin v Hv.
+  - assert (Hin' : In iv (base_ivalues doc)).
+    { unfold base_ivalues in Hin |- *. fold ds ds' in Hin |- *. apply in_flat_map in Hin. destruct Hin as (x & Hx' & Hiv).
+      apply in_flat_map. exists x. split; [|exact Hiv].
+      apply in_app_or in Hx'. apply in_or_app.
+      destruct Hx' as [Hx'|Hx']; [left|right];
+        (eapply Permutation_in; [apply Permutation_sym; apply Permutation_filter; exact Hp|exact Hx']). }
+    pose proof (Hb iv Hin' v Hv) as H.
+    rewrite (coerce_ext build_fuel true (base_env doc') (base_env doc)) by (intros n; symmetry; apply Hbenv).
+    rewrite (coerce_ext spec_fuel false (declared_env doc') (declared_env doc)) by (intros n; symmetry; apply Henv).
+    exact H.
+  - assert (Hin' : In iv (ext_ivalues doc)).
+    { unfold ext_ivalues, type_exts in Hin |- *. fold ds ds' in Hin |- *. apply in_flat_map in Hin.
+      destruct Hin as (x & Hx' & Hiv). apply in_flat_map. exists x. split; [|exact Hiv].
+      eapply Permutation_in; [apply Permutation_sym; apply Permutation_filter; exact Hp|exact Hx']. }
+    pose proof (He iv Hin' v Hv) as H.
+    rewrite (coerce_ext build_fuel true (built_env doc') (built_env doc)) by (intros n; symmetry; apply Hbuilt).
+    rewrite (coerce_ext spec_fuel false (declared_env doc') (declared_env doc)) by (intros n; symmetry; apply Henv).
+    exact H.
+Qed.
+
+(* C11_order for the builder, without assuming anything of the second document *)
+Theorem order_build_full doc doc' :
+  Permutation (doc_defs doc) (doc_defs doc') ->
+  (forall n, exts_for n (doc_defs doc) = exts_for n (doc_defs doc')) ->
+  schema_exts (doc_defs doc) = schema_exts (doc_defs doc') ->
+  sdl_rules_ok doc -> defaults_stable doc ->
+  sdl_rules_ok doc' /\ defaults_stable doc'
+  /\ exists sc sc', build_model (BOpts false []) doc = Ok sc /\ build_model (BOpts false []) doc' = Ok sc'
+                    /\ schema_equiv sc sc' = true.
+Proof.
+  intros Hp Hx Hsx Hr Hs.
+  pose proof (rules_order doc doc' Hp Hx Hsx Hr) as Hr'.
+  assert (R1 : r_unique_types doc = true).
+  { unfold sdl_rules_ok, sdl_rules_okb in Hr. repeat (apply andb_prop in Hr; destruct Hr as [Hr ?]). exact Hr. }
+  pose proof (stable_order doc doc' Hp Hx R1 Hs) as Hs'.
+  split; [exact Hr'|]. split; [exact Hs'|]. apply order_build; assumption.
 Qed.
